@@ -3,18 +3,18 @@ CONSTANTS
   DSeq <- DSeq3
   Tags = {"t1", "t2"}
   Limits = {1}
-  MaxEdits = 2
-  MaxFaults = 1
+  MaxEdits = 3
+  MaxFaults = 0
   MaxRecs = 4
   WithFin = FALSE
   ForeignAct = FALSE
-  Foreign = {"d1"}
+  Foreign = {}
   FixGC = TRUE
   MidEnv = FALSE
-  Legacy = FALSE
+  Legacy = TRUE
   InitReg <- Reg2
 VIEW view
 ACTION_CONSTRAINT Emit
 CHECK_DEADLOCK FALSE
-INVARIANTS OneActive
-PROPERTIES ActivateLast ForeignFrozen
+INVARIANTS OneActive GcSafe AfterReconcile
+PROPERTIES ActivateLast
